@@ -298,6 +298,20 @@ func (s *Session) Mail(from string, opts *smtp.MailOptions) error {
 	s.msgLock.Lock()
 	defer s.msgLock.Unlock()
 
+	// go-smtp does not refuse MAIL inside a transaction. Starting another
+	// delivery here would leave the current one open forever (and its
+	// context unusable if the new one fails to start).
+	if s.delivery != nil {
+		return &smtp.SMTPError{
+			Code:         503,
+			EnhancedCode: smtp.EnhancedCode{5, 5, 1},
+			Message:      "Nested MAIL command",
+		}
+	}
+	// MAIL FROM repeated before the first RCPT TO replaces the sender,
+	// including the deferred verdict about the previous one.
+	s.deliveryErr = nil
+
 	if !s.endp.deferServerReject {
 		// Will initialize s.msgCtx.
 		msgID, err := s.startDelivery(s.sessionCtx, from, *opts)
